@@ -225,7 +225,7 @@ def run(ctx):
                         "checked on the implementation only (partial)",
                         "numpy.linalg.eigh is a parameter of the model (captured)"]
     ctx.fingerprints["mudslide/afssh.py"] = fingerprint(
-        "mudslide/afssh.py", ["hop_update", "advance_delR", "advance_delP", "compute_delF", "surface_hopping", "__init__"])
+        "mudslide/afssh.py", ["hop_update", "advance_delR", "advance_delP", "compute_delF", "surface_hopping", "gamma_collapse", "__init__"])
     ctx.proofs()
     rng = ctx.rng
     ok, obs, req, text = oracle_initial_zero({})
@@ -318,6 +318,71 @@ def run(ctx):
         if not ok:
             sig = "collapse-event-yaml-representer" if obs.get("exception") == "RepresenterError" else "collapse"
             ctx.oracle_fail(sig, "collapse", a, obs, req, text)
+    # ---------- collapse rate and collapse loop (MudModel/Collapse.lean) ----------
+    lines, keep = [], []
+    for i in range(ctx.budget(80, 4000)):
+        c = _case(rng, N=2 if i % 2 else None)
+        N, n = c["N"], c["n"]
+        t = _afssh(c, "exp")
+        t.state = c["state"]
+        t.delR = np.array(c["delR"])
+        t.delP = np.array(c["delP"])
+        if rng.random() < 0.3:            # equal momentum moments in some dimension: the 1e-10 guard
+            x = int(rng.integers(0, n))
+            j = int(rng.integers(0, N))
+            t.delP[x, j, j] = t.delP[x, c["state"], c["state"]]
+        if rng.random() < 0.2:            # equal position moments: rate zero
+            j = int(rng.integers(0, N))
+            for x in range(n):
+                t.delR[x, j, j] = t.delR[x, c["state"], c["state"]]
+        e0, e1 = _elecs(c)
+        gam = np.array(t.gamma_collapse(e1))
+        R = np.real(np.array([[t.delR[x, j, j] for j in range(N)] for x in range(n)]))
+        P = np.real(np.array([[t.delP[x, j, j] for j in range(N)] for x in range(n)]))
+        F = np.array([[c["FM"][j, j, x] for x in range(n)] for j in range(N)])
+        lines.append(["gamma", N, n, c["state"]] + fbs(R) + fbs(P) + fbs(F) + [fb(c["dt"])])
+        keep.append(("gamma", c, gam, None))
+        if N == 2:
+            # the loop itself, with the real rate and the trajectory's own generator
+            bg = type(t.random_state.bit_generator)()
+            bg.state = t.random_state.bit_generator.state
+            e = float(np.random.Generator(bg).uniform())
+            scale = float(rng.choice([1.0, 1.0, 50.0, 1e4]))       # make collapses frequent enough to see both outcomes
+            g2 = gam * scale
+            t.gamma_collapse = (lambda g2=g2: (lambda electronics=None: np.array(g2)))()
+            t.hopper = lambda g: []
+            rho_before = np.array(t.rho)
+            t.surface_hopping(e0, e1)
+            evs = list(t.tracer.events.get("collapse", []))
+            lines.append(["collapse", 2, c["state"]] + fbs(g2) + [1, fb(e)])
+            keep.append(("collapse", c, (evs, np.array(t.rho), rho_before, bool(np.any(t.delR) or np.any(t.delP)), e, g2), None))
+    outs = ctx.model.run(lines)
+    for (kind, c, got, _), o in zip(keep, outs):
+        N = c["N"]
+        if kind == "gamma":
+            mg = np.array([unfb(v) for v in o[1:1 + N]])
+            ctx.case(("gamma", N, c["n"]) if N >= 3 else None, {"op": "gamma", "N": N, "n": c["n"], "impl": got, "model": mg})
+            ctx.count("gamma")
+            sc = float(np.max(np.abs(got))) + 1e-300
+            if o[0] != "ok" or not allclose(got, mg, sc) or got[c["state"]] != 0.0:
+                ctx.corr_mismatch("gamma", {"N": N, "n": c["n"], "state": c["state"]}, "impl %r model %r" % (got, mg))
+        else:
+            evs, rho, rho_before, moments_left, e, g2 = got
+            mcoll, mnev = int(o[1]), int(o[2])
+            mev = [(int(o[3 + 2 * q]), unfb(o[4 + 2 * q])) for q in range(mnev)]
+            iev = [(int(ev["removed"]), float(ev["gamma"])) for ev in evs]
+            ctx.case(("collapse-loop", c["state"], mnev > 0), {"op": "collapse", "state": c["state"], "e": e, "gamma": g2, "impl_events": iev})
+            ctx.count("collapse_loop:%s" % ("collapsed" if mnev else "not"))
+            want = np.zeros((2, 2), dtype=complex)
+            want[c["state"], c["state"]] = 1.0
+            ok = iev == mev and (mcoll == 1) == (len(iev) > 0)
+            if len(iev) > 0:
+                ok = ok and np.array_equal(rho, want) and not moments_left
+            else:
+                ok = ok and np.array_equal(rho, rho_before)
+            if o[0] != "ok" or not ok:
+                ctx.corr_mismatch("collapse-loop", {"state": c["state"], "e": e, "gamma": g2}, "impl events %r model %r" % (iev, mev))
+
     for i in range(ctx.budget(6, 80)):
         a = {"model": ["simple", "dual", "extended"][i % 3], "integ": ["exp", "linear-rk4"][(i // 3) % 2], "x0": -4.0,
              "k": float(rng.uniform(8, 25)), "dt": 20.0, "steps": 400, "seed": int(rng.integers(1, 2 ** 31))}
